@@ -708,7 +708,9 @@ func (q *quoteAn) run() {
 			switch {
 			case ctx.Dominates(blk, l.Header):
 				before = append(before, evs...)
-			case ctx.Dominates(l.Header, blk) && ctx.Dominates(blk, ret.Block()):
+			case ctx.Dominates(blk, ret.Block()):
+				// (on every path to the return and not before the loop: after it — the exit block of
+				// a bottom-tested loop is not dominated by the loop's header)
 				after = append(after, evs...)
 			default:
 				q.fail(nil, "framing", "a write outside the loop is not on every path")
